@@ -585,9 +585,24 @@ func ruleFieldBlockOnce(c *eng.Ctx) {
 		}
 		return eng.Unknown
 	}
-	edge := func(atom func(ast.Expr) eng.Tri) func(ast.Expr, bool) bool {
+	edge := func(atom func(ast.Expr) eng.Tri, _ ...types.Object) func(ast.Expr, bool) bool {
+		// bool locals derived from the answer (notYetMerged := !isMerged) stand for their definition
+		var full func(e ast.Expr) eng.Tri
+		full = func(e ast.Expr) eng.Tri {
+			if t := atom(e); t != eng.Unknown {
+				return t
+			}
+			if o := eng.ObjOf(info, e); o != nil {
+				if def := singleLocalDef(o); def != nil {
+					if b, ok := o.Type().Underlying().(*types.Basic); ok && b.Kind() == types.Bool {
+						return eng.EvalBool(info, def, full)
+					}
+				}
+			}
+			return eng.Unknown
+		}
 		return func(cond ast.Expr, taken bool) bool {
-			switch eng.EvalBool(info, cond, atom) {
+			switch eng.EvalBool(info, cond, full) {
 			case eng.True:
 				return taken
 			case eng.False:
@@ -609,7 +624,7 @@ func ruleFieldBlockOnce(c *eng.Ctx) {
 				return eng.True
 			}
 			return kindAtom(e)
-		}),
+		}, okVar),
 	})
 	c.Check(!unchecked && !applied, rule, construct, apply.Pos(), "a field block that is already merged is not applied again",
 		"on the field-block path coreblock.ProcessBlock can be reached without the already-merged check, or although it answered true: a field block linked from two composites is applied twice and re-added as a head although a current head names it as its parent")
